@@ -10,7 +10,10 @@
 //	simple      a real FSimpleServer on a loopback TCP socket; the frames of one connection are written
 //	            one after another by a raw client that reads reply frames back
 //	nats        a real FNatsServer (embedded nats-server); frames published with a reply inbox
-//	http        the real NewFrugalHandlerFunc under httptest; one POST per frame
+//	http        the real NewFrugalHandlerFunc under httptest; one POST per frame ("limits": the
+//	            x-frugal-payload-limit sent with each frame, 0 = none)
+//	bounded     processor.Process with a fresh frugal.NewTMemoryOutputBuffer(limits[i]) per frame behind a
+//	            transport that records every Write / WriteString / WriteByte with its fate, Flush and Reset
 //
 // and reports every reply frame byte for byte.  Nothing is parsed here: the driver
 // (tools/props/c14.py) parses replies with its own reader and the Coq judge with the model's.
@@ -57,6 +60,28 @@ type outcome struct {
 	Type   int32       `json:"type"`   // appexc: type id
 	Msg    string      `json:"msg"`    // appexc / other: message (hex)
 	Extra  [][2]string `json:"extra"`  // response headers the handler adds (hex pairs)
+	// large inputs without large requests: a response header whose value is Pat repeated N times, the same
+	// appended to the message, a string return value of Pad bytes
+	ExtraRep []repSpec `json:"extra_rep"`
+	MsgRep   *repSpec  `json:"msg_rep"`
+	Pad      int       `json:"pad"`
+}
+
+type repSpec struct {
+	K   string `json:"k"`   // hex
+	Pat string `json:"pat"` // hex
+	N   int    `json:"n"`
+}
+
+func (r repSpec) value() string {
+	p, _ := hex.DecodeString(r.Pat)
+	return strings.Repeat(string(p), r.N)
+}
+
+type traceEv struct {
+	K  int    `json:"k"` // 0 write, 1 flush, 2 reset
+	B  string `json:"b,omitempty"`
+	Ok bool   `json:"ok"`
 }
 
 type connSpec struct {
@@ -76,6 +101,7 @@ type request struct {
 	Conns    []connSpec         `json:"conns"`   // simple: connections (run concurrently); default: one with all frames
 	Workers  int                `json:"workers"` // nats: worker count; concurrent: goroutines
 	QuietMs  int                `json:"quiet_ms"`
+	Limits   []int              `json:"limits"` // bounded: buffer limit per frame; http: payload limit per frame
 }
 
 type callRec struct {
@@ -89,14 +115,16 @@ type callRec struct {
 }
 
 type frameObs struct {
-	Replies []string `json:"replies"` // reply frames (hex, without size prefix), in arrival order
-	Err     int      `json:"err"`     // direct/concurrent: class of the error Process returned
-	ErrText string   `json:"errtext,omitempty"`
-	Written string   `json:"written,omitempty"` // direct: every byte written to the output transport
-	Flushes int      `json:"flushes"`           // direct: number of Flush calls
-	Status  int      `json:"status,omitempty"`  // http
-	Raw     string   `json:"raw,omitempty"`     // http: decoded body (hex) when status is 200
-	Timeout bool     `json:"timeout,omitempty"` // simple/nats: gave up waiting
+	Replies []string  `json:"replies"` // reply frames (hex, without size prefix), in arrival order
+	Err     int       `json:"err"`     // direct/concurrent: class of the error Process returned
+	ErrText string    `json:"errtext,omitempty"`
+	Written string    `json:"written,omitempty"` // direct: every byte written to the output transport
+	Flushes int       `json:"flushes"`           // direct: number of Flush calls
+	Status  int       `json:"status,omitempty"`  // http
+	Raw     string    `json:"raw,omitempty"`     // http: decoded body (hex) when status is 200
+	Timeout bool      `json:"timeout,omitempty"` // simple/nats: gave up waiting
+	Trace   []traceEv `json:"trace,omitempty"`   // bounded: every call on the output transport
+	HasData bool      `json:"hasdata,omitempty"` // bounded: HasWriteData() when Process returned
 }
 
 func init() {
@@ -240,7 +268,14 @@ func (s *script) handle(service, method string, fctx frugal.FContext, args []int
 		v, _ := hex.DecodeString(kv[1])
 		fctx.AddResponseHeader(string(k), string(v))
 	}
+	for _, r := range oc.ExtraRep {
+		k, _ := hex.DecodeString(r.K)
+		fctx.AddResponseHeader(string(k), r.value())
+	}
 	msg, _ := hex.DecodeString(oc.Msg)
+	if oc.MsgRep != nil {
+		msg = append(msg, oc.MsgRep.value()...)
+	}
 	switch oc.K {
 	case "appexc":
 		s.record(rec)
@@ -256,6 +291,13 @@ func (s *script) handle(service, method string, fctx frugal.FContext, args []int
 	r, err := s.reg.BuildStruct(oc.Result, oc.Value)
 	if err != nil {
 		return fallback("build error: " + err.Error())
+	}
+	if oc.Pad > 0 {
+		if f, ok := fieldByID(s.reg, oc.Result, r, 0); ok && f.Kind() == reflect.Ptr && f.Type().Elem().Kind() == reflect.String {
+			pad := reflect.New(f.Type().Elem())
+			pad.Elem().SetString(strings.Repeat("r", oc.Pad))
+			f.Set(pad)
+		}
 	}
 	b, wok, panicked := writePartial(r, s.rq.Proto)
 	if panicked {
@@ -402,7 +444,9 @@ func run(reg *labdriver.Registry, raw json.RawMessage) interface{} {
 			return labdriver.Resp{"code": 103, "err": err.Error()}
 		}
 	case "http":
-		runHTTP(proc, pf, frames, obs)
+		runHTTP(proc, pf, frames, obs, rq.Limits)
+	case "bounded":
+		runBounded(proc, pf, frames, obs, rq.Limits)
 	default:
 		return labdriver.Resp{"code": 103, "err": "unknown mode " + rq.Mode}
 	}
@@ -441,6 +485,81 @@ func runDirect(proc frugal.FProcessor, pf *frugal.FProtocolFactory, frames [][]b
 		obs[i].Err, obs[i].ErrText = processOne(proc, pf, f, oprot)
 		obs[i].Written = hex.EncodeToString(rec.buf.Bytes())
 		obs[i].Flushes = rec.flushes
+	}
+}
+
+// ---- bounded output ----------------------------------------------------------------------------
+
+// boundedRec stands between the protocol and a real TMemoryOutputBuffer and records every call with its
+// fate.  It is a thrift.TRichTransport (so that the protocols keep calling WriteString / WriteByte) and
+// has the Reset method processor.go looks for.
+type boundedRec struct {
+	inner  *frugal.TMemoryOutputBuffer
+	events []traceEv
+}
+
+func (r *boundedRec) Open() error                { return r.inner.Open() }
+func (r *boundedRec) Close() error               { return r.inner.Close() }
+func (r *boundedRec) IsOpen() bool               { return r.inner.IsOpen() }
+func (r *boundedRec) Read(p []byte) (int, error) { return r.inner.Read(p) }
+func (r *boundedRec) ReadByte() (byte, error)    { return r.inner.ReadByte() }
+func (r *boundedRec) RemainingBytes() uint64     { return r.inner.RemainingBytes() }
+func (r *boundedRec) Write(p []byte) (int, error) {
+	ev := traceEv{K: 0, B: hex.EncodeToString(p)}
+	n, err := r.inner.Write(p)
+	ev.Ok = err == nil
+	r.events = append(r.events, ev)
+	return n, err
+}
+func (r *boundedRec) WriteString(s string) (int, error) {
+	ev := traceEv{K: 0, B: hex.EncodeToString([]byte(s))}
+	n, err := r.inner.WriteString(s)
+	ev.Ok = err == nil
+	r.events = append(r.events, ev)
+	return n, err
+}
+func (r *boundedRec) WriteByte(c byte) error {
+	ev := traceEv{K: 0, B: hex.EncodeToString([]byte{c})}
+	err := r.inner.WriteByte(c)
+	ev.Ok = err == nil
+	r.events = append(r.events, ev)
+	return err
+}
+func (r *boundedRec) Flush(ctx context.Context) error {
+	err := r.inner.Flush(ctx)
+	r.events = append(r.events, traceEv{K: 1, Ok: err == nil})
+	return err
+}
+func (r *boundedRec) Reset() {
+	r.events = append(r.events, traceEv{K: 2, Ok: true})
+	r.inner.Reset()
+}
+
+func runBounded(proc frugal.FProcessor, pf *frugal.FProtocolFactory, frames [][]byte, obs []frameObs, limits []int) {
+	for i, f := range frames {
+		lim := 0
+		if i < len(limits) && limits[i] > 0 {
+			lim = limits[i]
+		}
+		rec := &boundedRec{inner: frugal.NewTMemoryOutputBuffer(uint(lim))}
+		oprot := pf.GetProtocol(rec)
+		obs[i].Err, obs[i].ErrText = processOne(proc, pf, f, oprot)
+		b := rec.inner.Bytes()
+		if len(b) >= 4 {
+			obs[i].Written = hex.EncodeToString(b[4:])
+			if int(binary.BigEndian.Uint32(b)) != len(b)-4 {
+				obs[i].ErrText += fmt.Sprintf(" [size prefix %d of a %d byte buffer]", binary.BigEndian.Uint32(b), len(b))
+			}
+		} else {
+			obs[i].ErrText += fmt.Sprintf(" [buffer of %d bytes]", len(b))
+		}
+		obs[i].HasData = rec.inner.HasWriteData()
+		obs[i].Trace = rec.events
+		for _, e := range rec.events {
+			if e.K == 1 {
+				obs[i].Flushes++
+			}
+		}
 	}
 }
 
@@ -712,7 +831,7 @@ func runNats(proc frugal.FProcessor, pf *frugal.FProtocolFactory, frames [][]byt
 
 // ---- HTTP handler ------------------------------------------------------------------------------
 
-func runHTTP(proc frugal.FProcessor, pf *frugal.FProtocolFactory, frames [][]byte, obs []frameObs) {
+func runHTTP(proc frugal.FProcessor, pf *frugal.FProtocolFactory, frames [][]byte, obs []frameObs, limits []int) {
 	ts := httptest.NewServer(frugal.NewFrugalHandlerFunc(proc, pf))
 	defer ts.Close()
 	client := &http.Client{Timeout: 10 * time.Second}
@@ -724,6 +843,9 @@ func runHTTP(proc frugal.FProcessor, pf *frugal.FProtocolFactory, frames [][]byt
 		req, _ := http.NewRequest("POST", ts.URL, strings.NewReader(body))
 		req.Header.Set("Content-Type", "application/x-frugal")
 		req.Header.Set("Content-Transfer-Encoding", "base64")
+		if i < len(limits) && limits[i] > 0 {
+			req.Header.Set("x-frugal-payload-limit", fmt.Sprint(limits[i]))
+		}
 		resp, err := client.Do(req)
 		if err != nil {
 			obs[i].Timeout = true
